@@ -14,6 +14,7 @@ from vfw import vloop, loader
 
 M = loader.asyncio_S()
 LAST_INFO = None
+RAW = None
 
 
 class St:
@@ -243,6 +244,8 @@ def scen_c11(gaps, kidx, rt, dur, failmask, explicit_keys=True, bt=2):
     devs = hang_devs(st, outcome, n)
     if devs:
         return devs
+    global RAW
+    RAW = {'batches': st.batches}
     for b in st.batches:
         if len(set(b['keys'])) != len(b['keys']):
             devs.append('key-twice-in-one-batch')
@@ -293,14 +296,7 @@ def twin_c11(gaps, rt):
     devs = scen_c11(gaps, [0, 0, 0], rt, 1, 0)
     if devs:
         return []
-    return ['reached'] if len(st_last_batches()) >= 2 else []
-
-
-_LAST_ST = [None]
-
-
-def st_last_batches():
-    return _LAST_ST[0] or []
+    return ['reached'] if len(RAW['batches']) >= 2 and len(RAW['batches']) < 3 else []
 
 
 # =============================================================================== cells
@@ -315,6 +311,47 @@ def product_pre(fragsets):
     for frs in fragsets:
         out = [(sfx + str(i), pre + [f]) for sfx, pre in out for i, f in enumerate(frs)]
     return [(sfx, ' and '.join(pre)) for sfx, pre in out]
+
+
+def c11_cells(tier):
+    out = []
+    q = 'quick'
+    sig = 'gaps: List[int], rt: int, dur: int'
+    for pat in ('aa', 'ab'):
+        for fm in (0, 1):
+            for ek in (True, False):
+                out.append(Cell(name='c11_%s_f%d_%s' % (pat, fm, 'key' if ek else 'str'), sig=sig,
+                                pre=['len(gaps) == 2 and gaps[0] == 0 and 0 <= gaps[1] <= 25 and 0 <= rt <= 15 and 0 <= dur <= 3'],
+                                body='H.scen_c11(gaps, %r, rt, dur, %d, %r)' % ([0 if c == 'a' else 1 for c in pat], fm, ek),
+                                tier=q, timeout=170, family='c11'))
+    for pat in ('aaa', 'aab', 'aba'):
+        for fm in (0, 1):
+            split = [('', '0 <= gaps[2] <= 20 and 0 <= rt <= 15')] if pat == 'aaa' else \
+                product_pre([parts('gaps[2]', [(0, 4), (5, 20)] if pat != 'aba' else [(0, 1), (2, 4), (5, 20)]), parts('rt', [(0, 0), (1, 5), (6, 15)])]
+                            + [parts('gaps[1]', [(0, 2), (3, 20)])])
+            for sfx, pre in split:
+                out.append(Cell(name='c11_%s_f%d%s' % (pat, fm, '_p' + sfx if sfx else ''), sig=sig,
+                                pre=['len(gaps) == 3 and gaps[0] == 0 and 0 <= gaps[1] <= 20 and 0 <= dur <= 3', pre],
+                                body='H.scen_c11(gaps, %r, rt, dur, %d)' % ([0 if c == 'a' else 1 for c in pat], fm),
+                                tier=q if (fm == 0 or pat == 'aaa') else 'thorough',
+                                timeout=170 if (fm == 0 or pat == 'aaa') else 600, family='c11',
+                                weight={'aba': 4, 'aab': 3, 'aaa': 3}[pat]))
+    if tier != 'thorough':
+        out = [c for c in out if c.tier == 'quick']
+    out.append(Cell(name='twin_c11_recompute_and_join', sig='gaps: List[int], rt: int',
+                    pre=['len(gaps) == 3 and gaps[0] == 0 and all(0 <= g <= 20 for g in gaps) and 0 <= rt <= 15'],
+                    body='H.twin_c11(gaps, rt)', expect='refute', timeout=120, family='c11'))
+    if tier == 'thorough':
+        for pat in ('aaaa', 'aaba', 'abab', 'aabb', 'abba'):
+            for fm in (0, 1, 2):
+                out.append(Cell(name='c11_%s_f%d' % (pat, fm), sig=sig,
+                                pre=['len(gaps) == 4 and gaps[0] == 0 and all(0 <= g <= 20 for g in gaps) and 0 <= rt <= 15 and 0 <= dur <= 3'],
+                                body='H.scen_c11(gaps, %r, rt, dur, %d)' % ([0 if c == 'a' else 1 for c in pat], fm),
+                                tier='thorough', timeout=2400, family='c11'))
+        out.append(Cell(name='c11_aaaaa_f0', sig=sig,
+                        pre=['len(gaps) == 5 and gaps[0] == 0 and all(0 <= g <= 12 for g in gaps) and 0 <= rt <= 8 and 0 <= dur <= 2'],
+                        body='H.scen_c11(gaps, [0, 0, 0, 0, 0], rt, dur, 0)', tier='thorough', timeout=3000, family='c11'))
+    return out
 
 
 def c10_cells(tier):
@@ -363,6 +400,8 @@ def cells(prop, tier):
     q = 'quick'
     if prop == 'C10':
         out += c10_cells(tier)
+    if prop == 'C11':
+        out += c11_cells(tier)
     return out
 
 
@@ -383,7 +422,27 @@ META = {
 }
 
 
+META['C11'] = {
+    'explanation': 'AsyncBackgroundBatcher on the virtual-time loop: timed sequences of calls over one or two keys with symbolic gaps, a '
+                   'symbolic retention_timeout and batch duration; z3 decides the order of arrivals, batch completion and retention expiry. '
+                   'Oracle from the harness-owned batch function (batch identity is carried in every yielded value/exception): no key twice in a '
+                   'batch; a call arriving while the key is pending or strictly inside the window joins (same batch identity); a call arriving '
+                   'strictly after the window is computed by a later batch; retention 0: recomputed once the original caller was answered. '
+                   'Exact ties are not judged.',
+    'functions': [('aiuti/asyncio.py', 'AsyncBackgroundBatcher.__call__'), ('aiuti/asyncio.py', 'AsyncBackgroundBatcher._process_batch'),
+                  ('aiuti/asyncio.py', 'AsyncBackgroundBatcher._get_next_batch')],
+    'bounds': 'quick: 2..3 calls over keys a/b (explicit keys and str(arg) keys), gaps 0..25, retention 0..15 (symbolic, includes 0), batch '
+              'duration 0..3, value and exception outcomes; thorough: 4..5 calls',
+    'outside': 'cancelled callers (C09); three keys; more than 5 calls',
+    'assumptions': ['stock CPython 3.12 asyncio with pure-python Task and integer clock'],
+}
+
+
 def conformance(prop):
+    if prop == 'C11':
+        assert scen_c11([0, 0, 0], [0, 0, 0], 0, 1, 0) == [], LAST_INFO
+        assert scen_c11([0, 5, 20], [0, 0, 0], 10, 1, 1) == [], LAST_INFO
+        assert scen_c11([0, 5, 1], [0, 1, 0], 0, 0, 0, False) == [], LAST_INFO
     if prop == 'C10':
         assert scen_c10([0, 0, 0, 0], 5, 2, 5) == [], LAST_INFO
         assert scen_c10([0, 3, 12, 0], 12, 2, 1) == [], LAST_INFO
